@@ -87,8 +87,8 @@ theorem Tbl.putobj_spec (hc : CmpOk cmp) (isEmpty : V → Bool) (s : Tbl K V) (k
       s'.abs = putSpec cmp isEmpty k v s.abs ∧ s'.tid = s.tid := by
   let new : Entry K V := { key := k, val := v, id := s.fresh }
   let onDup := fun (e : Entry K V) => if isEmpty v then e else { e with val := v }
-  obtain ⟨t', added, h1, h2⟩ := put_llrb cmp keyOf new onDup s.root hi.llrb
-  obtain ⟨i1, i2⟩ := put_inorder new onDup hc _ _ _ h1 hi.ordered
+  obtain ⟨t', added, h1, h2⟩ := put_llrb cmp keyOf k (some new) onDup s.root hi.llrb
+  obtain ⟨i1, i2⟩ := put_inorder new onDup hc _ _ _ (by simpa [keyOf, new] using h1) hi.ordered
   have hdup : ∀ a, keyOf (onDup a) = keyOf a := by
     intro a; simp only [onDup, keyOf]; split <;> rfl
   have hsz := congrArg List.length i1
@@ -96,7 +96,7 @@ theorem Tbl.putobj_spec (hc : CmpOk cmp) (isEmpty : V → Bool) (s : Tbl K V) (k
                                fresh := if added then s.fresh + 1 else s.fresh }
   have hrun : s.putobj cmp isEmpty k v = .ok (s', true) := by
     simp only [Tbl.putobj]
-    rw [show T.put cmp keyOf { key := k, val := v, id := s.fresh }
+    rw [show T.put cmp keyOf k (some { key := k, val := v, id := s.fresh })
           (fun (e : Entry K V) => if isEmpty v then e else { e with val := v }) (s.root.size + 1) s.root
           = .ok (t', added) from h1]
     rfl
